@@ -330,7 +330,8 @@ func matrix(args []string) {
 		so3 := func() jl.Node { return jl.Obj("a", c.next(), "b", jl.Obj("a", c.next(), "b", c.next()), "c", c.next()) }
 		docs := []jl.Node{so(), so3(), jl.Arr(so(), so3(), c.next()), jl.Obj("p", so(), "q", so3()), jl.Obj("a", so3(), "b", jl.Arr(so(), so()))}
 		paths := [][]jl.Frag{
-			{jl.FRoot(), jl.FChild("a")}, {jl.FRoot(), jl.FChild("A")}, {jl.FRoot(), jl.FChild("b")}, {jl.FRoot(), jl.FChild("B")}, {jl.FRoot(), jl.FChild("c")},
+			// (names are given in the case of the keys: the struct lookup folds case, the abstract object does not - the statement is silent)
+			{jl.FRoot(), jl.FChild("a")}, {jl.FRoot(), jl.FChild("b")}, {jl.FRoot(), jl.FChild("c")},
 			{jl.FRoot(), jl.FUnion("a", "b")}, {jl.FRoot(), jl.FUnion("b", "a")}, {jl.FRoot(), jl.FUnion("b", "zz", "a")}, {jl.FRoot(), jl.FChild("b"), jl.FChild("a")},
 			{jl.FRoot(), jl.FChild("b"), jl.FUnion("b", "a")}, {jl.FRoot(), jl.FNth(0), jl.FChild("a")}, {jl.FRoot(), jl.FNth(1), jl.FChild("b"), jl.FChild("b")},
 			{jl.FRoot(), jl.FNth(-2), jl.FUnion("a", "c")}, {jl.FRoot(), jl.FChild("p"), jl.FChild("a")}, {jl.FRoot(), jl.FChild("q"), jl.FChild("b"), jl.FChild("a")},
